@@ -4,7 +4,9 @@
 // Nothing is ever created, changed or removed outside ${C20_SANDBOX} (every mutating path is checked).
 #include <algorithm>
 #include <atomic>
+#include <condition_variable>
 #include <cerrno>
+#include <chrono>
 #include <cstdarg>
 #include <cstdio>
 #include <cstdlib>
@@ -85,6 +87,69 @@ static bool g_fired = false;
 static std::string g_swapTarget;
 static std::atomic<unsigned long> g_opens{0}, g_openEloop{0};
 
+// hits of the interposers themselves (op `selftest`): a toolchain whose std::filesystem goes through statx/fstatat/openat
+// directly would leave the schedules of `sched` silently disabled
+static std::atomic<unsigned long> g_hitStat{0}, g_hitRealpath{0}, g_hitOpen{0};
+
+// Gate for the two-thread schedule (op `race`): when set, the FIRST open() of the gated thread parks until released.
+static std::function<void()> g_openGate;
+static thread_local bool t_gated = false;
+
+// ---------------------------------------------------------------------------------------------------------------
+// Interposed read(2) (op `readcfg`): the read loop of Assets::readFile sees SHORT reads (at most g_chunkMax bytes per call) and,
+// every g_eintrEvery-th call, a failure with errno = EINTR before the data.  Only descriptors that the interposed open() above
+// handed to the library are affected (the line protocol's own stdin reads are not).  Counters feed the evidence file.
+// ---------------------------------------------------------------------------------------------------------------
+static std::size_t g_chunkMax = 0;
+static unsigned g_eintrEvery = 0;
+static bool g_libFd[4096];
+static std::atomic<unsigned long> g_reads{0}, g_readsShort{0}, g_readsEintr{0}, g_readsFull{0}, g_readsEof{0}, g_readLoops2{0};
+static thread_local unsigned t_readsThisFd = 0;
+static std::vector<long> g_script; // op `readscript`: -1 EINTR, -2 EIO, k > 0 at most k bytes; consumed front to back
+static std::size_t g_scriptPos = 0;
+
+extern "C" ssize_t read(int fd, void* buf, size_t n)
+{
+  const bool lib = fd >= 0 && fd < 4096 && g_libFd[fd];
+  if (lib)
+  {
+    unsigned long k = ++g_reads;
+    if (g_scriptPos < g_script.size())
+    {
+      long c = g_script[g_scriptPos++];
+      if (c == -1) { g_readsEintr++; errno = EINTR; return -1; }
+      if (c == -2) { errno = EIO; return -1; }
+      if (static_cast<size_t>(c) < n) n = static_cast<size_t>(c);
+    }
+    else if (g_eintrEvery && k % g_eintrEvery == 0)
+    {
+      g_readsEintr++;
+      errno = EINTR;
+      return -1;
+    }
+    if (g_chunkMax && n > g_chunkMax) { n = g_chunkMax; }
+  }
+  ssize_t r = static_cast<ssize_t>(::syscall(SYS_read, fd, buf, n));
+  if (lib)
+  {
+    if (r == 0) { g_readsEof++; t_readsThisFd = 0; }
+    else if (r > 0)
+    {
+      if (static_cast<size_t>(r) == 65536) g_readsFull++;
+      else g_readsShort++;
+      if (++t_readsThisFd == 2) g_readLoops2++; // a second data read on the same descriptor: the loop really iterated
+    }
+  }
+  return r;
+}
+
+extern "C" int close(int fd)
+{
+  if (fd >= 0 && fd < 4096) g_libFd[fd] = false;
+  return static_cast<int>(::syscall(SYS_close, fd));
+}
+
+
 // ---------------------------------------------------------------------------------------------------------------
 // Deterministic schedules at EVERY system-call boundary of one lookup (op `sched`).  The lookup's path-taking system calls are
 // recognised as they happen: status(candidate) and, if the candidate does not exist, the prefix loop of weakly_canonical
@@ -119,6 +184,7 @@ static void schedFire(char pt)
 
 static void hookStat()
 {
+  g_hitStat++;
   if (!g_s.active || g_s.busy) return;
   if (g_s.phase == 1) { schedFire('R'); g_s.phase = 2; }
   else if (g_s.phase == 3) { schedFire('G'); g_s.phase = 4; }
@@ -135,6 +201,7 @@ extern "C" char* realpath(const char* path, char* resolved)
 {
   using F = char* (*)(const char*, char*);
   static F real = reinterpret_cast<F>(::dlsym(RTLD_NEXT, "realpath"));
+  g_hitRealpath++;
   const bool mine = g_s.active && !g_s.busy;
   if (mine && g_s.phase == 0 && g_s.realpathSeen + 1 == g_s.needRealpath && g_s.candidateAbs == path) schedFire('C');
   char* out = real(path, resolved);
@@ -179,6 +246,12 @@ extern "C" int open(const char* path, int flags, ...)
     mode = static_cast<mode_t>(va_arg(ap, int));
     va_end(ap);
   }
+  g_hitOpen++;
+  if (t_gated && g_openGate)
+  {
+    t_gated = false;
+    g_openGate();
+  }
   hookOpen();
   if (g_armed)
   {
@@ -191,6 +264,7 @@ extern "C" int open(const char* path, int flags, ...)
     g_fired = true;
   }
   int fd = static_cast<int>(::syscall(SYS_openat, AT_FDCWD, path, flags, mode));
+  if (fd >= 0 && fd < 4096) { g_libFd[fd] = (flags & O_ACCMODE) == O_RDONLY; t_readsThisFd = 0; }
   g_opens++;
   if (fd < 0 && errno == ELOOP) g_openEloop++;
   return fd;
@@ -339,13 +413,34 @@ static std::string showStatic(const GetStaticResult& r)
 
 static std::string oracleFor(const State& st, bool tmpl, const std::string& name)
 {
-  // OS oracle (implementation side only): where does <root>/<name> really live right now?
+  // OS oracle (implementation side only, independent of the library's verdict): where does <root>/<name> really live right now
+  // (rp), what is the object at the joined path itself (lf: f regular file, l symbolic link, d directory, ~ nothing), and does rp
+  // lie outside realpath(<root>) (esc)?   lf=f with esc=1 is a request THROUGH a directory link that leaves the root.
   if (!st.a) return "";
   std::string base;
   if (st.isFs) base = tmpl ? st.a->_fs->templatesRoot.string() : st.a->_fs->staticsRoot.string();
-  else if (st.emb) base = st.emb->externalDir;
-  if (base.empty()) return "";
-  return " # rp=" + realpathHex(base + "/" + name);
+  else if (st.emb && !tmpl) base = st.emb->externalDir;
+  if (base.empty() || name.find('\0') != std::string::npos) return "";
+  const std::string joined = base + "/" + name;
+  std::string o = " # rp=" + realpathHex(joined);
+  struct stat sb;
+  char lf = '~';
+  if (::syscall(SYS_newfstatat, AT_FDCWD, joined.c_str(), &sb, AT_SYMLINK_NOFOLLOW) == 0)
+    lf = S_ISLNK(sb.st_mode) ? 'l' : S_ISDIR(sb.st_mode) ? 'd' : S_ISREG(sb.st_mode) ? 'f' : 'o';
+  o += std::string(" lf=") + lf;
+  char* rb = ::realpath(base.c_str(), nullptr);
+  char* rj = ::realpath(joined.c_str(), nullptr);
+  if (rb && rj)
+  {
+    std::string b(rb), j(rj);
+    const bool in = j.size() > b.size() && j.compare(0, b.size(), b) == 0 && (b == "/" || j[b.size()] == '/');
+    o += in ? " esc=0" : (j == b ? " esc=0" : " esc=1");
+    struct stat sj;
+    if (::syscall(SYS_newfstatat, AT_FDCWD, rj, &sj, 0) == 0 && S_ISREG(sj.st_mode)) o += " reg=1";
+  }
+  std::free(rb);
+  std::free(rj);
+  return o;
 }
 
 int main()
@@ -361,6 +456,19 @@ int main()
     if (g_sandbox.find("/.work/") == std::string::npos) die("C20_SANDBOX must be inside a .work directory");
   }
   State st;
+  struct StatsAtExit
+  {
+    ~StatsAtExit()
+    {
+      if (const char* sf = std::getenv("C20_STATS"))
+      {
+        std::ofstream f(sf, std::ios::app);
+        f << "reads total=" << g_reads.load() << " full64k=" << g_readsFull.load() << " short=" << g_readsShort.load()
+          << " eintr=" << g_readsEintr.load() << " eof=" << g_readsEof.load() << " second_data_read_same_fd=" << g_readLoops2.load()
+          << " opens=" << g_opens.load() << " open_eloop=" << g_openEloop.load() << "\n";
+      }
+    }
+  } statsAtExit;
   return vh::runLines([&](const std::vector<std::string>& t) -> std::string {
     return guarded([&]() -> std::string {
       Bytes a, b, c;
@@ -368,6 +476,8 @@ int main()
       {
         st.a.reset();
         st.emb.reset();
+        g_chunkMax = 0;
+        g_eintrEvery = 0;
         if (::chdir(g_sandbox.c_str()) != 0) die("chdir");
         removeSandboxContents();
         for (std::size_t i = 2; i < t.size(); ++i)
@@ -492,7 +602,7 @@ int main()
         std::string n = str(a);
         GetStaticResult r = st.a->getStatic(std::string_view(n));
         std::string o = showStatic(r);
-        if (r.status == GetStaticResult::Status::Found && (st.isFs || r.blob._entry)) o += oracleFor(st, false, n);
+        if (r.status != GetStaticResult::Status::Found || st.isFs || r.blob._entry) o += oracleFor(st, false, n);
         return o;
       }
       if (t.size() == 2 && t[0] == "template" && vh::ofHex(t[1], a))
@@ -500,7 +610,7 @@ int main()
         if (!st.a) return "no-instance";
         std::string n = str(a);
         auto r = st.a->getTemplate(std::string_view(n));
-        if (!r) return "none";
+        if (!r) return "none" + (st.isFs ? oracleFor(st, true, n) : std::string());
         std::string o = "some " + vh::toHex(std::string(*r));
         if (st.isFs) o += oracleFor(st, true, n);
         return o;
@@ -583,6 +693,145 @@ int main()
       {
         if (st.a) st.a->reload();
         return "ok";
+      }
+      if (t.size() == 3 && t[0] == "readcfg")
+      {
+        // readcfg <max bytes per read, 0 = unlimited> <every k-th read fails with EINTR first, 0 = never>
+        unsigned long long k = 0, m = 0;
+        if (!vh::parseNat(t[1], k) || !vh::parseNat(t[2], m)) return "bad-op";
+        g_chunkMax = static_cast<std::size_t>(k);
+        g_eintrEvery = static_cast<unsigned>(m);
+        return "ok";
+      }
+      if (t.size() == 3 && t[0] == "readscript" && vh::ofHex(t[1], a))
+      {
+        // readscript <path> <comma list: e = EINTR, x = EIO, k = at most k bytes>: Assets::readFile with the answers of read(2) scripted
+        g_script.clear();
+        g_scriptPos = 0;
+        if (t[2] != "-")
+          for (auto& tok : splitOn(t[2], ','))
+          {
+            unsigned long long k = 0;
+            if (tok == "e") g_script.push_back(-1);
+            else if (tok == "x") g_script.push_back(-2);
+            else if (vh::parseNat(tok, k)) g_script.push_back(static_cast<long>(k == 0 ? 1 : k));
+            else return "bad-op";
+          }
+        auto d = Assets::readFile(fs::path(str(a)));
+        g_script.clear();
+        g_scriptPos = 0;
+        return d ? "some " + vh::toHex(*d) : std::string("none");
+      }
+      if (t.size() == 1 && t[0] == "selftest")
+      {
+        // do the interposers see what std::filesystem / the library do on THIS toolchain?  (independent of assets.hpp's lookups)
+        std::string p = g_sandbox + "/.selftest";
+        writeFile(p, "x");
+        unsigned long s0 = g_hitStat, r0 = g_hitRealpath, o0 = g_hitOpen, d0 = g_reads;
+        std::error_code ec;
+        bool reg = fs::is_regular_file(fs::path(p), ec);
+        fs::path wc = fs::weakly_canonical(fs::path(p), ec);
+        // open/read/close exactly as header-only library code compiled into this executable binds them (no library function is
+        // called here: the self-test must not depend on the code under test)
+        std::optional<std::string> d;
+        {
+          int fd = ::open(p.c_str(), O_RDONLY | O_CLOEXEC);
+          char c = 0;
+          if (fd >= 0 && ::read(fd, &c, 1) == 1) d = std::string(1, c);
+          if (fd >= 0) ::close(fd);
+        }
+        ::unlink(p.c_str());
+        std::string o = "ok # stat=" + std::to_string(g_hitStat - s0 > 0) + " realpath=" + std::to_string(g_hitRealpath - r0 > 0) +
+                        " open=" + std::to_string(g_hitOpen - o0 > 0) + " read=" + std::to_string(g_reads - d0 > 0) +
+                        " sane=" + std::to_string(reg && wc.string() == p && d && *d == "x");
+        return o;
+      }
+      if (t.size() == 8 && t[0] == "race" && (t[1] == "static" || t[1] == "template") && vh::ofHex(t[2], a) && vh::ofHex(t[4], b) &&
+          t[5].size() == 1 && vh::ofHex(t[6], c))
+      {
+        // race <static|template> <nameA> <static|template|reload|none> <nameB> <l|f|r|n> <path> <data>
+        // Thread A looks <nameA> up and is parked just before its FIRST open(2) (= after validation and the first cache probe, before
+        // the read outside the lock).  While it is parked this thread runs B's operation to completion, then changes the file
+        // system, then lets A finish (build + second probe / emplace).  If A never opens anything, B runs after A.
+        if (!st.a) return "no-instance";
+        if (!st.isFs) return "race unsupported";
+        Bytes md;
+        if (!vh::ofHex(t[7], md)) return "bad-op";
+        const std::string nA = str(a), nB = str(b), mpath = str(c), mdata = str(md);
+        const char mk = t[5][0];
+        if (mk != 'n' && !inSandbox(mpath)) die("race mutation outside the sandbox: " + mpath);
+        const bool tmplA = t[1] == "template";
+        std::mutex m;
+        std::condition_variable cv;
+        int phase = 0; // 0 running, 1 parked, 2 released, 3 finished
+        std::string resA;
+        g_openGate = [&] {
+          std::unique_lock<std::mutex> lk(m);
+          phase = 1;
+          cv.notify_all();
+          cv.wait(lk, [&] { return phase == 2; });
+        };
+        std::thread ta([&] {
+          t_gated = true;
+          std::string o = guarded([&]() -> std::string {
+            if (!tmplA) return showStatic(st.a->getStatic(std::string_view(nA)));
+            auto r = st.a->getTemplate(std::string_view(nA));
+            return r ? "some " + vh::toHex(std::string(*r)) : std::string("none");
+          });
+          t_gated = false;
+          std::unique_lock<std::mutex> lk(m);
+          resA = o;
+          phase = 3;
+          cv.notify_all();
+        });
+        bool gated = false;
+        {
+          std::unique_lock<std::mutex> lk(m);
+          cv.wait(lk, [&] { return phase == 1 || phase == 3; });
+          gated = phase == 1;
+        }
+        auto runB = [&]() -> std::string {
+          if (t[3] == "reload") { st.a->reload(); return "ok"; }
+          if (t[3] == "static") return showStatic(st.a->getStatic(std::string_view(nB)));
+          if (t[3] == "template")
+          {
+            auto r = st.a->getTemplate(std::string_view(nB));
+            return r ? "some " + vh::toHex(std::string(*r)) : std::string("none");
+          }
+          return "-";
+        };
+        // B runs on a thread of its own so that a lock held by the parked A (a build moved under the mutex) shows up as
+        // `blocked=1` after 2 s instead of hanging the run: A is then released first and B finishes afterwards
+        std::string resB;
+        bool bDone = false, blocked = false;
+        std::thread tb([&] {
+          std::string o = guarded(runB);
+          std::unique_lock<std::mutex> lk(m);
+          resB = o;
+          bDone = true;
+          cv.notify_all();
+        });
+        {
+          std::unique_lock<std::mutex> lk(m);
+          if (!cv.wait_for(lk, std::chrono::seconds(gated ? 2 : 600), [&] { return bDone; })) blocked = true;
+        }
+        if (gated)
+        {
+          if (mk != 'n')
+          {
+            removeAt(mpath);
+            if (mk == 'l') (void)::symlink(mdata.c_str(), mpath.c_str());
+            else if (mk == 'f') writeFile(mpath, mdata);
+          }
+          std::unique_lock<std::mutex> lk(m);
+          phase = 2;
+          cv.notify_all();
+          cv.wait(lk, [&] { return phase == 3; });
+        }
+        ta.join();
+        tb.join();
+        g_openGate = nullptr;
+        return resA + " | " + resB + (gated ? " gated=1" : " gated=0") + (blocked ? " blocked=1" : "");
       }
       if (t.size() == 6 && t[0] == "storm" && vh::ofHex(t[2], a) && vh::ofHex(t[3], b) && vh::ofHex(t[4], c))
       {
